@@ -429,7 +429,22 @@ def _bind(ev, target, val):
 
 
 def guard_text(test, polarity=True):
-    t = " ".join(src(test).replace("numpy.", "np.").split())
+    """Canonical text of a parameter guard: spelling variants of 'parameter is finite' / 'parameter is set' map to one text."""
+    t = " ".join(src(test).replace("numpy.", "np.").replace("float('inf')", "np.inf").replace('float("inf")', "np.inf").replace("math.inf", "np.inf").split())
+    import re as _re
+    m = _re.fullmatch(r"(self\.\w+) (!=|<) np\.inf", t) or _re.fullmatch(r"np\.inf (!=|>) (self\.\w+)", t)
+    if m:
+        attr = m.group(1) if m.group(1).startswith("self.") else m.group(2)
+        t = "%s != np.inf" % attr
+    m = _re.fullmatch(r"np\.isfinite\((self\.\w+)\)", t)
+    if m:
+        t = "%s != np.inf" % m.group(1)
+    m = _re.fullmatch(r"not (self\.\w+) == np\.inf", t) or _re.fullmatch(r"not \((self\.\w+) == np\.inf\)", t)
+    if m:
+        t = "%s != np.inf" % m.group(1)
+    m = _re.fullmatch(r"(self\.\w+) != None", t) or _re.fullmatch(r"not (self\.\w+) is None", t) or _re.fullmatch(r"None is not (self\.\w+)", t)
+    if m:
+        t = "%s is not None" % m.group(1)
     return t if polarity else "not (%s)" % t
 
 
